@@ -7,6 +7,25 @@ import re
 
 HERE = os.path.dirname(os.path.dirname(os.path.abspath(__file__)))
 REMARKS = {
+ 'C17_m1': 'NOT CAUGHT, deliberately: the change only shows when the callback appends to / shrinks the very array being visited; the visitor documents no behaviour under mutation from the callback (C06 asserts deletion of the current object member, which the property names), so there is nothing to assert',
+ 'C20_m1': 'NOT CAUGHT, deliberately: retrying a write that failed with EINTR and delivering every byte exactly once is accepted by the recorded assumption ("retry-and-complete or clean failure"); the inconsistency (only after a partial write) changes no observable byte',
+ 'C10_m2': 'first run: build collision in the seedtest run (exit 2); caught on re-run (set_int on a node in unsigned representation)',
+ 'C09_m2': 'first run: MISSED (copies were taken before mutations); histories now re-set doubles in place to the value they already have, then copy',
+ 'C05_m1': 'caught by C09 after adding copies of nodes that use json_object_userdata_to_json_string with a deleter of the caller\'s (the copy must call the same deleter exactly once)',
+ 'C12_m2': 'caught by C05 (see C07_l2)',
+ 'C20_m2': 'first run: MISSED (unopenable paths were short); paths of 150..1000 characters: there must still be a message',
+ 'C13_m1': 'first run: MISSED by C13 (C09 sees it); target documents of C13 now also carry strings that were longer for a while',
+ 'C16_m2': 'first run: MISSED by C16 and C04 (flags were changed after the reset only); half of the flag changes in C04 now happen before the reset, i.e. while the abandoned document is still pending',
+ 'C19_m1': 'first run: MISSED (only the first allocation of an operation was failed: in sprintbuf\'s long path that is vasprintf, the buffer growth is the second); a third of the injected faults hit the second allocation',
+ 'C15_m1': 'first run: MISSED (arguable, says its author; but "exact" cuts both ways: a document within the limit is never "nested too deep"); truncated within-limit documents, in particular cut right after the D-th opener, must not give the depth error',
+ 'C15_m2': 'caught by C08 after the tokener_new workloads started parsing a document nested limit-1 deep with the tokener they were handed',
+ 'C07_m1': 'caught by C08 (array_reserve workload) -- and now also by C07: puts at index 2^33 must fail cleanly and the array must go on working',
+ 'C07_m2': 'first run: MISSED (the bsearch key was an element of the array, the comparator symmetric); the comparator now checks that its first argument is the key',
+ 'C06_m1': 'caught only because names with bytes >= 0x80 were added to the universes while this batch was being written (M6 described it; the first run already had them)',
+ 'C06_m2': 'first run: MISSED (entries were only ever deleted by key); lhenum now deletes every successfully deleted ENTRY a second time: -1 and unchanged length',
+ 'C04_m2': 'caught by C08 after the "parser reusable after a failed parse" step got 40- and 100-byte tokens',
+ 'C01_m1': 'caught only after exponents below -324 and 300+ leading fraction zeros were added (same round)',
+ 'C01_m2': 'outside C01 (an empty first piece of a chunked feed); caught by C03',
  'C06_l1': 'first run: MISSED (the string hash function was chosen per history, never switched while an object was alive); a quarter of the churn histories now switch json_global_set_string_hash mid-history',
  'C06_l2': 'first run: MISSED (delete-current-while-iterating only through the foreach macro); OITDEL has a visitor form: the callback deletes the member it is looking at and returns SKIP',
  'C19_l1': 'first run: MISSED (formatted output never contained a NUL); fmtc: sprintbuf("%s%c%s", a, 0, b) with short and long parts',
